@@ -348,16 +348,17 @@ func runScenario(c Case) (res childResult) {
 
 var tmpDir string
 
-func runCase(c Case, x *ev.Ctx) error {
-	b, _ := json.Marshal(c)
+// runChild runs one scenario in a child process of this test binary and evaluates race log, exit status and result line.
+func runChild(test, env, tag string) (childResult, error) {
+	var res childResult
 	shard, _ := ev.Shard()
-	raceLog := filepath.Join(tmpDir, fmt.Sprintf("race-%d", shard))
+	raceLog := filepath.Join(tmpDir, fmt.Sprintf("race-%s-%d", tag, shard))
 	os.Remove(raceLog)
 	for _, f := range globRace(raceLog) {
 		os.Remove(f)
 	}
-	cmd := exec.Command(os.Args[0], "-test.run", "^TestChild$", "-test.timeout", "400s")
-	cmd.Env = append(os.Environ(), "VERIF_C13_CASE="+string(b), "GORACE=log_path="+raceLog+"")
+	cmd := exec.Command(os.Args[0], "-test.run", test, "-test.timeout", "400s")
+	cmd.Env = append(os.Environ(), env, "GORACE=log_path="+raceLog+"")
 	var out strings.Builder
 	cmd.Stdout, cmd.Stderr = &out, &out
 	err := cmd.Run()
@@ -375,7 +376,7 @@ func runCase(c Case, x *ev.Ctx) error {
 		if len(r) > 5000 {
 			r = r[:5000]
 		}
-		return fmt.Errorf("the race detector reported a data race:\n%s", r)
+		return res, fmt.Errorf("the race detector reported a data race:\n%s", r)
 	}
 	i := strings.LastIndex(text, "C13-RESULT ")
 	if err != nil || i < 0 {
@@ -383,21 +384,26 @@ func runCase(c Case, x *ev.Ctx) error {
 		if len(tail) > 4000 {
 			tail = tail[len(tail)-4000:]
 		}
-		return fmt.Errorf("the process running the scenario died (%v):\n%s", err, tail)
+		return res, fmt.Errorf("the process running the scenario died (%v):\n%s", err, tail)
 	}
-	var res childResult
 	line := text[i+len("C13-RESULT "):]
 	if j := strings.Index(line, "\n"); j >= 0 {
 		line = line[:j]
 	}
 	if err := json.Unmarshal([]byte(line), &res); err != nil {
-		return fmt.Errorf("harness: cannot parse child result: %v", err)
+		return res, fmt.Errorf("harness: cannot parse child result: %v", err)
 	}
 	if res.Violation != "" {
-		if strings.HasPrefix(res.Violation, "setup:") {
-			return fmt.Errorf("%s", res.Violation)
-		}
-		return fmt.Errorf("%s", res.Violation)
+		return res, fmt.Errorf("%s", res.Violation)
+	}
+	return res, nil
+}
+
+func runCase(c Case, x *ev.Ctx) error {
+	b, _ := json.Marshal(c)
+	res, err := runChild("^TestChild$", "VERIF_C13_CASE="+string(b), "crl")
+	if err != nil {
+		return err
 	}
 	for k, v := range res.Counts {
 		_ = v
